@@ -44,9 +44,13 @@ def blind_xpub(starting_xpub, starting_path, secret_path):
 
     starting_xpub_obj = HDPublicKey.parse(starting_xpub)
     # Note that we cannot verify the starting path, so it is essential that at least this safety check is accurate
-    if starting_xpub_obj.depth != starting_path.count("/"):
+    if not is_valid_bip32_path(starting_path):
+        raise ValueError(f"Invalid bip32 path: {starting_path}")
+    # count the components of the path the way combine_bip32_paths reads it ("//" is forgiven there)
+    starting_depth = starting_path.strip().replace("//", "/").count("/")
+    if starting_xpub_obj.depth != starting_depth:
         raise ValueError(
-            f"starting_xpub_obj.depth {starting_xpub_obj.depth} != starting_path depth {starting_path.count('/')}"
+            f"starting_xpub_obj.depth {starting_xpub_obj.depth} != starting_path depth {starting_depth}"
         )
 
     # This will automatically use the version byte that was parsed in the previous step
